@@ -2,6 +2,7 @@
 package util
 
 import (
+	"hash/fnv"
 	"math/rand"
 	"sort"
 	"strings"
@@ -10,11 +11,41 @@ import (
 	"github.com/AdguardTeam/urlfilter/rules"
 )
 
-// Storage builds a string-backed storage with list ids 1..n.
+// ListIDs returns the ids Storage gives to the lists.  They are a function of
+// the contents: mostly 0..n-1, otherwise ids that are far apart and congruent
+// modulo a power of two (base, base+16, base+32, ...), or negative.
+func ListIDs(lists ...string) (ids []int) {
+	h := fnv.New32a()
+	for _, l := range lists {
+		_, _ = h.Write([]byte(l))
+		_, _ = h.Write([]byte{0})
+	}
+	v := h.Sum32()
+	base := []int{0, 1, 3, 7}[(v>>8)%4]
+	step := 1
+	switch v % 10 {
+	case 0:
+		step = 16
+	case 1:
+		step = 256
+	case 2:
+		step = 65536
+	case 3:
+		step, base = -16, -base-1
+	}
+	for i := range lists {
+		ids = append(ids, base+step*i)
+	}
+
+	return ids
+}
+
+// Storage builds a string-backed storage with the list ids of ListIDs.
 func Storage(lists ...string) *filterlist.RuleStorage {
 	var ls []filterlist.RuleList
+	ids := ListIDs(lists...)
 	for i, l := range lists {
-		ls = append(ls, &filterlist.StringRuleList{ID: i, RulesText: l})
+		ls = append(ls, &filterlist.StringRuleList{ID: ids[i], RulesText: l})
 	}
 	s, err := filterlist.NewRuleStorage(ls)
 	if err != nil {
@@ -24,7 +55,7 @@ func Storage(lists ...string) *filterlist.RuleStorage {
 	return s
 }
 
-// StorageSplit spreads the lines over 1..3 string-backed lists (ids 0, 1, 2;
+// StorageSplit spreads the lines over 1..3 string-backed lists (ids of ListIDs;
 // the first lines of the lists share offset 0) keeping their relative order
 // inside each list.
 func StorageSplit(rng *rand.Rand, lines []string) *filterlist.RuleStorage {
